@@ -195,5 +195,24 @@ func coverageMinimums() map[string]int64 {
 	row("free|placed-by=remap:unified/k=4|pages>1", 6)
 	row("free|placed-by=dist:unified/k=2|pages>1", 20)
 	row("free|placed-by=remap:cpu|pages=1", 35)
+	// page-migration preparation
+	row("migrate|pages=1", 700)
+	row("migrate|pages>1", 300)
+	row("migrate|requesters=1", 900)
+	row("migrate|requesters=2", 70)
+	row("migrate|over-pages-placed-by=allocu", 500)
+	row("migrate|over-pages-placed-by=migrate", 550)
+	row("migrate|back-to-a-gpu-that-hosted-the-page-before", 500)
+	row("migrate|allocator=default", 800)
+	row("migrate|allocator=buddy", 230)
+	row("free|placed-by=migrate:gpu|pages=1", 60)
+	row("free|placed-by=migrate:gpu|pages>1", 17)
+	row("remap|over-pages-placed-by=migrate", 50)
+	row("dist|over-pages-placed-by=migrate", 30)
+	m["op|refill-frees-a-buffer|placed-by=migrate:gpu"] = 15
+	m["op_migrate"] = 1000
+	m["migrated_pages"] = 1500
+	m["frames_from_a_migration_reused_after_free"] = 80
+	m["histories_with_migration_peers"] = 400
 	return m
 }
